@@ -11,7 +11,9 @@
    Resolved g     : no divider of a member cell is still an integer (true after reading, C16_after_read)
    NumInj g       : forall k, NoDup (map (num g k) (coll g k))      (what the collection check keeps, C06)
    uzero_same g rho : universe 0 keeps number 0 and nothing else gets it (the setter refuses n <= 0)
-   renum_safe g o : o is a number assignment, and not one to universe 0 *)
+   renum_safe g o : o is a number assignment, and not one to universe 0
+   u_card g / fill_card g : the entries of a data-block U / FILL card, one per member cell (0 = jump)
+   slot_numbers sl l : the numbers written in slot sl, in file order;  nz z := z <> 0 *)
 From Coq Require Import List ZArith Bool.
 From MPV Require Import Model.Graph Proofs.GraphProofs.
 Import ListNotations.
@@ -26,6 +28,41 @@ Theorem C04_refs_follow :
     resolve (renumber g rho) = resolve g.
 Proof. exact refs_follow. Qed.
 Print Assumptions C04_refs_follow.
+
+(* 1'. both placements of the per-cell U / FILL values (print_in_data_block): the entries of the
+       data-block card (u_card / fill_card: one per member cell, 0 = jump) are the current numbers of the
+       same universe objects; the cell-block entries are exactly the non-zero entries of the card, in cell
+       order; after a renumbering, or any sequence of assignments, the card holds the new numbers of the
+       old pointees *)
+Theorem C04_refs_follow_placement :
+  forall g,
+    slot_numbers SlU (written_refs g) = filter nz (u_card g) /\
+    slot_numbers SlFill (written_refs g) =
+      flat_map (fun c => match c_fill (cellf g c) with Some f => [num g KUniv f] | None => [] end) (coll g KCell) /\
+    ((forall c f, c_fill (cellf g c) = Some f -> num g KUniv f <> 0%Z) ->
+     slot_numbers SlFill (written_refs g) = filter nz (fill_card g)).
+Proof. exact placements_agree. Qed.
+Print Assumptions C04_refs_follow_placement.
+
+Theorem C04_cards_follow :
+  forall g rho,
+    u_card (renumber g rho) =
+      map (fun c => match c_univ (cellf g c) with Some u => rho KUniv u | None => 0%Z end) (coll g KCell) /\
+    fill_card (renumber g rho) =
+      map (fun c => match c_fill (cellf g c) with Some f => rho KUniv f | None => 0%Z end) (coll g KCell).
+Proof. exact cards_renumber. Qed.
+Print Assumptions C04_cards_follow.
+
+Theorem C04_cards_after_sequence :
+  forall ops g, all_safe renum_safe g ops = true -> NumInj g -> Linked g ->
+    u_card (run g ops) =
+      map (fun c => match c_univ (cellf g c) with Some u => num (run g ops) KUniv u | None => 0%Z end)
+          (coll g KCell) /\
+    fill_card (run g ops) =
+      map (fun c => match c_fill (cellf g c) with Some f => num (run g ops) KUniv f | None => 0%Z end)
+          (coll g KCell).
+Proof. exact cards_after_sequence. Qed.
+Print Assumptions C04_cards_after_sequence.
 
 (* 2. own numbers follow, in place *)
 Theorem C04_own_numbers :
